@@ -34,14 +34,14 @@ PROPS = {
     PT + "imp_partition.py": ["C02", "C01", "C05"],
     PT + "comp_id.py": ["C02", "C19", "C20"],
     PT + "pel_values.py": ["C02", "C03", "C07"],
-    PT + "pel_types.py": ["C07", "C02", "C03"],
+    PT + "pel_types.py": ["C07", "C02", "C03", "C04"],
     PT + "src.py": ["C03", "C01", "C18", "C20", "C05", "C19"],
     PT + "registry.py": ["C03", "C19"],
     PT + "user_data.py": ["C04", "C01", "C18", "C05"],
     PT + "ext_user_data.py": ["C04", "C01", "C18", "C05"],
-    PT + "parse_user_data.py": ["C04", "C18", "C19", "C05"],
+    PT + "parse_user_data.py": ["C04", "C18", "C03", "C01", "C19", "C05"],
     PT + "default.py": ["C04", "C01", "C05"],
-    PT + "config.py": ["C07", "C10"],
+    PT + "config.py": ["C07", "C10", "C08", "C18"],
     "modules/pel/datastream.py": ["C05", "C01", "C02"],
     "modules/pel/hexdump.py": ["C13", "C04", "C16", "C17"],
     "modules/pel/hwdiags/parserdata.py": ["C20"],
